@@ -26,21 +26,56 @@ RULE = ("sbt stream: 1..60 insertions (thorough: up to 300) of sketches of scale
         "sizes that are multiples of 32 and bits beyond the size")
 
 
-def cli_append(chk, pkg):
-    """`sourmash index`, then `sourmash index --append`, then `sourmash search` for every signature (real command
-    line, in-process): every signature indexed in either step must be found again (oracle only)"""
+def _legacy_rewrite(path, ver):
+    """rewrite a version-6 FS index in place into the layout of an older version (as adapters/sbt_impl.py does)"""
+    import gzip
+    import json
+    info = json.load(open(path))
+    d = os.path.dirname(path)
+    sub = info["storage"]["args"]["path"]
+    sigs = info.pop("signatures")
+    if ver == 5:
+        info["version"] = 5
+        info["leaves"] = sigs
+    elif ver in (3, 4):
+        info["version"] = ver
+        info["nodes"].update(sigs)
+        if ver == 3:
+            for v in info["nodes"].values():
+                if "internal" in v["name"] and isinstance(v.get("metadata"), dict):
+                    v["metadata"].pop("min_n_below", None)
+    else:
+        nodes = {k: {"name": v["name"], "filename": os.path.join(sub, v["filename"])} for k, v in info["nodes"].items()}
+        for k, v in sigs.items():
+            nodes[k] = {"name": v["name"], "metadata": v["metadata"], "filename": os.path.join(sub, v["filename"])}
+        rootf = os.path.join(d, nodes["0"]["filename"])
+        raw = open(rootf, "rb").read()
+        if raw[:2] == b"\x1f\x8b":
+            open(rootf, "wb").write(gzip.decompress(raw))
+        info = {"d": info["d"], "version": 2, "nodes": nodes}
+    json.dump(info, open(path, "w"))
+
+
+def cli_routes(chk, pkg):
+    """The command-line routes that write or rewrite an SBT index (real entry point, in-process): `index` with its options
+    (-d / --n_children, -x / --bf-size, -s / --sparseness, --scaled), `index --append`, `migrate` (of an index rewritten
+    into versions 2..5), `storage convert` (to a zip, to another directory).  Oracle only: afterwards the index is loaded
+    and walked (Cover, structure, every signature a leaf) and `sourmash search` must find every signature."""
     import csv
+    import json
     import shutil
     import tempfile
     import cli_lib
-    n_sc = 12 if chk.tier == "thorough" else 3
+    n_sc = 20 if chk.tier == "thorough" else 5
     runner = cli_lib.ServerRunner(pkg)
     root = os.path.join(os.path.dirname(os.path.dirname(os.path.dirname(os.path.abspath(__file__)))), ".build", "tmp")
     os.makedirs(root, exist_ok=True)
     rng = chk.rng
     done = 0
+    kinds = ["append", "options", "migrate", "convert", "combine"]
     try:
         for sc in range(n_sc):
+            kind = kinds[sc % len(kinds)]
             d = tempfile.mkdtemp(prefix="c13cli_", dir=root)
             try:
                 n1, n2 = rng.randint(1, 6), rng.randint(1, 4)
@@ -52,51 +87,119 @@ def cli_append(chk, pkg):
                 ok, err = runner.write({"dir": d, "sigs": sigs, "files": files})
                 if not ok:
                     raise common.ToolFailure("cli_files: " + err)
-                db = os.path.join(d, rng.choice(["db.sbt.zip", "db.sbt.json"]))
+                S = lambda lo, hi: [os.path.join(d, f"s{i}.sig") for i in range(lo, hi)]
+                dd = rng.choice([2, 2, 3, 5, 10])
+                bf = rng.choice([100, 1000, 10000, 100000])
                 sparse = rng.choice(["0.0", "0.0", "0.5", "1.0"])
-                dd = str(rng.choice([2, 2, 3, 5]))
-                steps = [["index", "-q", "-k", "21", "--dna", "-d", dd, "--sparseness", sparse, db] +
-                         [os.path.join(d, f"s{i}.sig") for i in range(n1)],
-                         ["index", "-q", "--append", "-k", "21", "--dna", "--sparseness", rng.choice(["0.0", "0.0", "0.5"]), db] +
-                         [os.path.join(d, f"s{i}.sig") for i in range(n1, n1 + n2)]]
+                expect = list(range(n1 + n2))
+                final = None
+                if kind == "append":
+                    db = os.path.join(d, rng.choice(["db.sbt.zip", "db.sbt.json"]))
+                    steps = [["index", "-q", "-k", "21", "--dna", "-d", str(dd), "--sparseness", sparse, db] + S(0, n1),
+                             ["index", "-q", "--append", "-k", "21", "--dna", "--sparseness", rng.choice(["0.0", "0.5"]), db] + S(n1, n1 + n2)]
+                elif kind == "options":
+                    db = os.path.join(d, rng.choice(["db.sbt.zip", "db.sbt.json", "db"]))
+                    steps = [["index", "-q", "-k", "21", "--dna", rng.choice(["-d", "--n_children"]), str(dd),
+                              rng.choice(["-x", "--bf-size"]), str(bf), rng.choice(["-s", "--sparseness"]), sparse, db] + S(0, n1 + n2)]
+                    if db.endswith("/db"):
+                        final = db + ".sbt.zip"
+                elif kind == "migrate":
+                    db = os.path.join(d, "db.sbt.json")
+                    ver = rng.choice([2, 3, 4, 5])
+                    steps = [["index", "-q", "-k", "21", "--dna", "-d", str(dd), "-x", str(rng.choice([100, 1000, 10000])), db] + S(0, n1 + n2),
+                             ("rewrite", ver), ["migrate", db]]
+                elif kind == "combine":
+                    db = os.path.join(d, "both.sbt.zip")
+                    a_db, b_db = os.path.join(d, "a.sbt.zip"), os.path.join(d, "b.sbt.zip")
+                    steps = [["index", "-q", "-k", "21", "--dna", a_db] + S(0, n1),
+                             ["index", "-q", "-k", "21", "--dna", b_db] + S(n1, n1 + n2),
+                             ["sbt_combine", db, a_db, b_db]]
+                    dd = 2
+                else:
+                    db = os.path.join(d, "db.sbt.json")
+                    target = rng.choice(["ZipStorage(" + os.path.join(d, "moved.sbt.zip") + ")", "FSStorage(" + os.path.join(d, "other") + ")",
+                                         "FSStorage(" + os.path.join(d, "nested", "other") + ")", "zip"])
+                    steps = [["index", "-q", "-k", "21", "--dna", "-d", str(dd), db] + S(0, n1 + n2),
+                             ["storage", "convert", db, "-b", target]]
+                final = final or db
                 hist = []
                 bad = None
                 for argv in steps:
+                    if isinstance(argv, tuple):
+                        _legacy_rewrite(db, argv[1])
+                        hist.append(f"<index rewritten as version {argv[1]}>")
+                        continue
                     rc, out, err = runner.run(argv, d)
-                    hist.append(" ".join(os.path.basename(a) if a.startswith(d) else a for a in argv))
+                    hist.append("sourmash " + " ".join(a.replace(d + "/", "") for a in argv))
                     if rc != 0:
-                        bad = f"`sourmash {hist[-1]}` exited {rc}: {err[-300:]}"
+                        bad = f"`{hist[-1]}` exited {rc}: {err[-300:]}"
                         break
-                missing = []
-                if bad is None:
-                    for i in range(n1 + n2):
-                        outp = os.path.join(d, f"o{i}.csv")
-                        rc, out, err = runner.run(["search", "-q", "-k", "21", "--dna", "--threshold", "0.99",
-                                                   os.path.join(d, f"s{i}.sig"), db, "-o", outp], d)
-                        names = set()
-                        if rc == 0 and os.path.exists(outp):
-                            names = {r["name"] for r in csv.DictReader(open(outp))}
-                        if rc != 0 or str(i) not in names:
-                            missing.append((i, rc, err[-200:] if rc else ""))
                 chk.cov["evaluations"] += 1
                 done += 1
                 if bad is not None:
-                    chk.add_violation("oracle", "C13:cli-append:command-failed", bad, {"history": hist})
-                elif missing:
-                    chk.add_violation("oracle", "C13:cli-append:signature-not-found",
-                                      f"after `index` of {n1} and `index --append` of {n2} signatures (d={dd}, sparseness {sparse}), "
-                                      f"`sourmash search` does not find signature(s) {[m[0] for m in missing][:6]} in the index",
-                                      {"history": hist, "missing": missing, "sigs": sigs})
+                    chk.add_violation("oracle", f"C13:cli-{kind}:command-failed", bad, {"history": hist})
+                    continue
+                # (a) every signature is found by `sourmash search`
+                missing = []
+                for i in expect:
+                    outp = os.path.join(d, f"o{i}.csv")
+                    rc, out, err = runner.run(["search", "-q", "-k", "21", "--dna", "--threshold", "0.99",
+                                               os.path.join(d, f"s{i}.sig"), final, "-o", outp], d)
+                    names = set()
+                    if rc == 0 and os.path.exists(outp):
+                        names = {r["name"] for r in csv.DictReader(open(outp))}
+                    if rc != 0 or str(i) not in names:
+                        missing.append((i, rc, err[-200:] if rc else ""))
+                if missing:
+                    chk.add_violation("oracle", f"C13:cli-{kind}:signature-not-found",
+                                      f"after {hist}: `sourmash search` does not find signature(s) {[m[0] for m in missing][:6]} "
+                                      f"({missing[0][2][-120:]})", {"history": hist, "missing": missing, "sigs": sigs})
+                    continue
+                # (b) the index written satisfies Cover: load it and walk it with the adapter, judge with the stream's oracle
+                text = f"# case\nloadpath {final} 0\ndump\n"
+                rc, impl, err = common.run_impl(sbt.ADAPTER, text, pkg)
+                dump_line = impl[2] if rc == 0 and len(impl) >= 3 else f"err adapter-exit-{rc}"
+                case = [f"new {dd} 1000 4"] + [f"ins {i} " + " ".join(str(h) for h, _ in sigs[str(i)]["pairs"]) for i in expect] + ["dump"]
+                obs = ["ok"] + ["ok"] * len(expect) + [dump_line]
+                for idx, sig, msg in sbt.oracle(case, obs):
+                    if sig.startswith("C13:min_n_below-clamp") or sig.startswith("C13:views:"):
+                        continue
+                    chk.add_violation("oracle", sig.replace(":insert-only", f":cli-{kind}"), f"index written by {hist}: {msg}",
+                                      {"history": hist, "dump": dump_line})
+                if kind == "options" and dump_line.startswith("ok"):
+                    info_d = None
+                    try:
+                        if final.endswith(".json"):
+                            info_d = json.load(open(final))
+                    except Exception:           # noqa: BLE001
+                        pass
+                    if info_d is not None and (info_d.get("d") != dd or int(info_d["factory"]["args"][1]) != bf):
+                        chk.add_violation("oracle", "C13:cli-options:not-honoured",
+                                          f"{hist}: the index records d={info_d.get('d')} factory={info_d['factory']['args']}", {"history": hist})
             finally:
                 shutil.rmtree(d, ignore_errors=True)
     finally:
         runner.close()
-    chk.cov["cli_append_scenarios"] = done
+    chk.cov["cli_route_scenarios"] = done
 
 
 def extra(chk, pkg):
-    """the nodegraph sub-stream, then the `index --append` command-line route"""
-    cli_append(chk, pkg)
+    """the nodegraph sub-stream, then the command-line routes that write an index"""
+    cli_routes(chk, pkg)
+    # the tree of base-class `Leaf`s (a Nodegraph per leaf; `Leaf.update/save/load/data`): oracle only
+    n_g = 200 if chk.tier == "thorough" else 40
+    text = "# case\n" + "".join(f"genericleaf {chk.rng.randint(0, 10 ** 9)}\n" for _ in range(n_g))
+    rc, impl, err = common.run_impl(sbt.ADAPTER, text, pkg)
+    for k, line in enumerate(impl[1:]):
+        chk.cov["evaluations"] += 1
+        if line != "ok 0":
+            chk.add_violation("oracle", "C13:generic-leaf:cover-broken",
+                              f"SBT of base-class Leaf nodes ({text.splitlines()[k + 1]}): {line} (violations of 'every ancestor's filter "
+                              "answers present for everything counted into the leaves beneath it', before or after save+load)",
+                              {"op": text.splitlines()[k + 1], "obs": line})
+    if rc != 0:
+        chk.add_violation("crash", "C13:generic-leaf:adapter-crash", err[-300:], {})
+    chk.cov["generic_leaf_probes"] = n_g
     n = 5000 if chk.tier == "thorough" else 400
     fl = ["std", "std", "std", "std", "big"]
     cases = streamlib.corpus_cases("C13ng")
@@ -150,7 +253,7 @@ def extra(chk, pkg):
 
 if __name__ == "__main__":
     thorough = "thorough" in sys.argv or os.environ.get("VERIF_TIER") == "thorough"
-    fl = ["insert", "small", "sparse", "reinsert", "big", "sparse", "insert", "legacy", "reinsert", "small", "resave"]
+    fl = ["insert", "small", "sparse", "reinsert", "big", "sparse", "insert", "legacy", "reinsert", "small", "resave", "combine", "damage"]
     if thorough:
-        fl = ["insertT", "small", "sparseT", "reinsert", "big", "sparse", "insert", "legacy", "reinsert", "small", "resave"]
+        fl = ["insertT", "small", "sparseT", "reinsert", "big", "sparse", "insert", "legacy", "reinsert", "small", "resave", "combine", "damage"]
     streamlib.run_property("C13", sbt, fl, sbt.oracle, 900, 20000, TB, AS, RULE, nontrivial=sbt.nontrivial, extra=extra)
